@@ -48,6 +48,23 @@ def ok_in(d, length):
     return True
 
 
+def len_after(d, length):
+    """length of the vector after an applicable diff (textual form)"""
+    if d in ("PopFront", "PopBack") or d.startswith("Remove("):
+        return length - 1
+    if d.startswith(("PushFront(", "PushBack(", "Insert(")):
+        return length + 1
+    if d == "Clear":
+        return 0
+    if d.startswith("Truncate("):
+        return int(d[9:-1])
+    if d.startswith(("Append[", "Reset[")):
+        inner = d[d.index("[") + 1:-1]
+        k = 0 if inner == "" else inner.count(",") + 1
+        return k if d.startswith("Reset") else length + k
+    return length
+
+
 def rand_vec(rng, maxlen, maxval):
     return [rng.randrange(maxval) for _ in range(rng.randrange(maxlen + 1))]
 
@@ -166,6 +183,75 @@ def filter_single_step(maxlen, bats=("u", "b")):
                     mask = m | (1 << 6)
                     for d in ds:
                         cases.append("%s - %s %d %s :: d:%s ; D" % (kind, bat, mask, vec(l), d))
+    return cases
+
+
+def _filter_diffs(n):
+    ds = []
+    for a in ((), (6,), (7,), (6, 7), (7, 6)):
+        ds.append("Append" + vec(a))
+        ds.append("Reset" + vec(a))
+    ds += ["Clear", "PopFront", "PopBack"]
+    for x in (6, 7):
+        ds += ["PushFront(%d)" % x, "PushBack(%d)" % x]
+        for i in range(n + 1):
+            ds.append("Insert(%d,%d)" % (i, x))
+        for i in range(n):
+            ds.append("Set(%d,%d)" % (i, x))
+    for i in range(n):
+        ds.append("Remove(%d)" % i)
+        ds.append("Truncate(%d)" % i)
+    return [d for d in ds if ok_in(d, n)]
+
+
+def filter_two_step(maxlen, bats=("u", "b")):
+    """filter/filter_map: every pair of applicable diffs from every pass/fail assignment - the defects
+    that need a stale internal index to be *used* (one diff corrupts filtered_indices / original_len,
+    the next one exposes it) are deterministic here"""
+    cases = []
+    for kind in ("filter", "filter_map"):
+        for bat in bats:
+            for n in range(maxlen + 1):
+                l = list(range(n))
+                for m in range(1 << n):
+                    mask = m | (1 << 6)
+                    for d1 in _filter_diffs(n):
+                        for d2 in _filter_diffs(len_after(d1, n)):
+                            cases.append("%s - %s %d %s :: d:%s ; D ; d:%s ; D" % (kind, bat, mask, vec(l), d1, d2))
+    return cases
+
+
+def _sort_diffs(n):
+    ds = ["Clear", "PopFront", "PopBack"]
+    for a in ((), (17,), (27, 8), (8, 27)):
+        ds.append("Append" + vec(a))
+        ds.append("Reset" + vec(a))
+    for k in (0, 1, 2):
+        x = k * 10 + 7
+        ds += ["PushFront(%d)" % x, "PushBack(%d)" % x]
+        for i in range(n + 1):
+            ds.append("Insert(%d,%d)" % (i, x))
+        for i in range(n):
+            ds.append("Set(%d,%d)" % (i, x))
+    for i in range(n):
+        ds.append("Remove(%d)" % i)
+    return [d for d in ds if ok_in(d, n)]
+
+
+def sort_two_step(maxlen, bats=("u", "b"), kinds=("sort", "sort_by", "sort_by_key")):
+    """sort*: every pair of applicable diffs (no Truncate: known finding F6) from every key assignment"""
+    cases = []
+    for kind in kinds:
+        for bat in bats:
+            for n in range(maxlen + 1):
+                for keys in itertools.product((0, 1, 2), repeat=n):
+                    l = [k * 10 + i for i, k in enumerate(keys)]
+                    for d1 in _sort_diffs(n):
+                        n1 = len_after(d1, n)
+                        for d2 in _sort_diffs(n1):
+                            # second-step values must stay distinct from the first step's (items are key*10+uid)
+                            d2 = d2.replace("7)", "9)").replace("[17]", "[19]").replace("[27,8]", "[29,6]").replace("[8,27]", "[6,29]")
+                            cases.append("%s - %s - %s :: d:%s ; D ; d:%s ; D" % (kind, bat, vec(l), d1, d2))
     return cases
 
 
